@@ -703,7 +703,14 @@ impl<Tz: TimeZone> DateTime<Tz> {
     /// ```
     #[must_use]
     pub fn with_time(&self, time: NaiveTime) -> LocalResult<Self> {
-        self.timezone().from_local_datetime(&self.overflowing_naive_local().date().and_time(time))
+        // The local date can lie in the buffer space outside of the valid range (see
+        // `overflowing_naive_local`); as in `map_local`, the result must not escape that range.
+        self.timezone()
+            .from_local_datetime(&self.overflowing_naive_local().date().and_time(time))
+            .and_then(|dt| {
+                Some(dt)
+                    .filter(|dt| dt >= &DateTime::<Utc>::MIN_UTC && dt <= &DateTime::<Utc>::MAX_UTC)
+            })
     }
 
     /// The minimum possible `DateTime<Utc>`.
